@@ -11,6 +11,9 @@ var checks = map[string]func(*Report){
 	"C03": runC03,
 	"C04": runC04,
 	"C05": runC05,
+	"C06": runC06,
+	"C07": runC07,
+	"C08": runC08,
 	"C09": runC09,
 	"C10": runC10,
 	"C11": runC11,
